@@ -37,6 +37,9 @@ Lexemes == {
     <<"&">>, <<"&", "&">>, <<"@">>, <<"@", ">">>, <<"@", "@">>, <<"#">>, <<"#", ">">>, <<"#", ">", ">">>, <<"#", "-">>,
     <<"?">>, <<"?", "|">>, <<"?", "&">>, <<"~">>, <<"~", "*">>, <<"$">> }
 
+\* (the driver also concretises the word lexeme "L" to every keyword spelling next to an element of every other kind,
+\* with these separators and with comments whose own text ends in a full stop, a quote or a parenthesis: what is inside
+\* a comment, and that there is a comment at all, is invisible to the element after it)
 Seps == { <<>>, <<"sp">>, <<"tab">>, <<"nl">>, <<"cr", "nl">>, <<"sp", "nl", "sp">>,
           <<"sp", "-", "-", "L", "nl">>, <<"/", "*", "L", "*", "/">>, <<"/", "*", "sq", "nl", "*", "/">> }
 
